@@ -36,6 +36,7 @@ template<class T> static void unary(T x, const char* tn)
 		T ip; T fp = glm::modf(x, ip); if (!same(ip, (T)truncl(lx)) || !samev(fp, (T)(x - ip))) tfail("modf" + sfx, "value", in, fs((T)truncl(lx)), fs(ip) + " " + fs(fp));
 		int e; T m = glm::frexp(x, e); if (x != 0 && (!(std::fabs((double)m) >= 0.5 && std::fabs((double)m) < 1) || glm::ldexp(m, e) != x)) tfail("frexp" + sfx, "ldexp(frexp(x)) == x, mantissa in [0.5,1)", in, in, fs(m) + " e=" + str(e));
 		for (T w : { glm::clamp(x), glm::repeat(x), glm::mirrorClamp(x), glm::mirrorRepeat(x) }) if (!(w >= 0 && w <= 1)) { tfail("texcoord wrap" + sfx, "outside [0,1]", in, "[0,1]", fs(w)); break; }
+		if (x >= (T)2147483648.0 && x < (T)4294967000.0) { long long wantu = (long long)roundl(lx); if ((long long)glm::uround(x) != wantu) tfail("uround" + sfx, "nearest integer, 2^31 <= x < 2^32", in, str(wantu), str((long long)glm::uround(x))); }
 		if (x >= 0 && x < (T)2147483000) { long long want2 = (long long)roundl(lx); if ((long long)glm::iround(x) != want2 || (long long)glm::uround(x) != want2) tfail("iround" + sfx, "nearest integer", in, str(want2), str(glm::iround(x))); }
 	}
 	if (!samev(glm::abs(x), (T)fabsl(lx))) tfail("abs" + sfx, "value", in, fs((T)fabsl(lx)), fs(glm::abs(x)));
@@ -51,7 +52,7 @@ static void bitcasts(uint32_t u)
 }
 template<class T> static std::vector<T> lattice()
 {
-	typedef std::numeric_limits<T> L; std::vector<T> v; T base[] = { (T)0, L::denorm_min(), L::min(), (T)0.5, std::nextafter((T)0.5, (T)0), (T)1, (T)1.5, (T)2.5, (T)8388608, (T)16777216, (T)2147483648.0, L::max(), L::infinity() };
+	typedef std::numeric_limits<T> L; std::vector<T> v; T base[] = { (T)0, L::denorm_min(), L::min(), (T)0.5, std::nextafter((T)0.5, (T)0), (T)1, (T)1.5, (T)2.5, (T)8388608, (T)16777216, (T)2147483648.0, (T)2147483904.0, (T)3000000000.0, (T)4294966784.0, L::max(), L::infinity() };
 	for (T b : base) { v.push_back(b); v.push_back(-b); } v.push_back(L::quiet_NaN()); return v;
 }
 template<class T> static T fmin_ref(std::vector<T> const& a) { bool any = false; T m = 0; for (T x : a) if (!(x != x)) { if (!any || x < m) m = x; any = true; } return any ? m : std::numeric_limits<T>::quiet_NaN(); }
